@@ -201,6 +201,9 @@ var sub = ev.Register("config-updates",
 				if len(cur.Notified) > 0 {
 					return ev.Failf("config.rejected-update-notified:"+classOf(u), "%s: rejected (%s) but subscribers were told %v", step, r.Err, cur.Notified)
 				}
+				if cur.Restart != prev.Restart {
+					return ev.Failf("config.rejected-update-changed-state:restart-needed:"+classOf(u), "%s: rejected (%s) but the process now reports restart-needed=%v (before: %v): every later accepted update will be answered 'restart required'", step, r.Err, cur.Restart, prev.Restart)
+				}
 				if cur.FileSha != prev.FileSha {
 					return ev.Failf("config.rejected-update-changed-file:"+classOf(u), "%s: rejected (%s) but var/config.json changed (now %d bytes: %q)", step, r.Err, len(cur.File), clip(cur.File))
 				}
